@@ -286,7 +286,7 @@ def check(cx):
     # alone (the rows of a transaction rolled back before the last checkpoint are still in the data file)
     for nm in ("clear_aborted_up_to", "clear_aborted_bitmap"):
         for fid in sorted(x for x in p.fns if x.endswith("::" + nm)):
-            for caller in sorted(K.callers_of(p, fid)):
+            for caller in sorted(K.callers_of(p, fid, {"Database::vacuum", K.PAGER + "::clear_aborted_up_to"})):
                 root = p.fn(caller).root or caller
                 okc = root in ("Database::vacuum", K.PAGER + "::clear_aborted_up_to")
                 cx.verdict(okc, r4, "%s<-%s" % (fid.rsplit("::", 2)[-2] + "::" + nm, root), p.fn(caller).where(), "cleared by VACUUM",
